@@ -181,6 +181,84 @@ def pdk_packages():
     return out
 
 
+def hconn(c):
+    """an elaborated connectable in the JSON form of the Lean `SConn`"""
+    if isinstance(c, h.Signal):
+        return {"k": "sig", "n": c.name, "w": c.width}
+    if isinstance(c, h.Slice):
+        idx = c.index
+        i = {"i": idx} if isinstance(idx, int) else {"s": idx.start, "e": idx.stop, "st": idx.step}
+        return {"k": "slice", "p": hconn(c.parent), "i": i}
+    if isinstance(c, h.Concat):
+        return {"k": "concat", "ps": [hconn(p) for p in c.parts]}
+    return {"k": "other:" + type(c).__name__}
+
+
+def hmodule_json(m):
+    """what elaboration left in a Module: internal signals and ports (dict order), instances with their connections"""
+    return {"signals": [[s.name, s.width] for s in m.signals.values()],
+            "ports": [[s.name, s.width, s.direction.name] for s in m.ports.values()],
+            "instances": [{"n": i.name, "conns": [[pn, hconn(c)] for pn, c in i.conns.items()]} for i in m.instances.values()]}
+
+
+def elaborated_modules(top):
+    """{qualified name: Module} below `top`"""
+    from hdl21.qualname import qualname
+
+    out, todo = {}, [top]
+    while todo:
+        m = todo.pop()
+        if qualname(m) in out:
+            continue
+        out[qualname(m)] = m
+        todo += [i.of for i in m.instances.values() if isinstance(i.of, h.Module)]
+    return out
+
+
+def impl_export_model(case):
+    import build
+
+    try:
+        b = build.build(case["design"], case.get("style", "proc"))
+        h.elaborate(b.top)
+        mods = {k: hmodule_json(m) for k, m in elaborated_modules(b.top).items()}  # read off before the exporter runs
+        pkg = h.to_proto(b.top)
+    except Exception as ex:  # noqa
+        return {"reject": common.errstr(ex)}
+    pj = observe.pkg_json(pkg)
+    missing = [m["name"] for m in pj["modules"] if m["name"] not in mods]
+    if missing:
+        return {"pkg": pj, "missing": missing}
+    return {"pkg": pj, "hmods": [mods[m["name"]] for m in pj["modules"]]}
+
+
+def export_model_stream(ctx, cases):
+    """(C06, module level) `EWF` on what elaboration left behind (the hypothesis of `export_module_wf`), and the model's
+    `exportModule` of it against the module the real exporter wrote."""
+    rep = ctx.rep
+    impls = common.pmap(impl_export_model, cases, chunk=8)
+    idx = [k for k, im in enumerate(impls) if "hmods" in im]
+    outs = dict(zip(idx, ctx.drv.run([{"prop": "EWF", "op": "ewf", "pkg": impls[k]["pkg"], "hmods": impls[k]["hmods"]} for k in idx])))
+    for k, (c, im) in enumerate(zip(cases, impls)):
+        rep.count("export_model", json.dumps(c["design"])[:4000], nontrivial="hmods" in im)
+        case = {"stream": "export_model", "case": c}
+        if "missing" in im:
+            rep.fail("corr", case, f"package modules not found below the top: {im['missing']}")
+            continue
+        if k not in outs:
+            continue
+        for mo in outs[k]["modules"]:
+            r = mo["result"]
+            if "parse_error" in r:
+                rep.fail("corr", case, f"{mo['module']}: elaborated module not in the model's alphabet: {r['parse_error']}")
+            elif r["problems"] and r["ewf"]:
+                rep.fail("pred", case, {"why": f"{mo['module']}: a well-formed elaborated module was exported with defects", "problems": r["problems"][:5]})
+            elif not r["ewf"]:
+                rep.fail("corr", case, f"{mo['module']}: elaboration left a module that does not satisfy EWF (the hypothesis of export_module_wf)")
+            elif r["export_equal"] is not True or not r["same_instance_count"]:
+                rep.fail("corr", case, f"{mo['module']}: the model's export of the elaborated module is not what the exporter wrote ({r['export_equal']})")
+
+
 def run(ctx):
     rep = ctx.rep
     rep.extra["rule"] = (
@@ -198,6 +276,7 @@ def run(ctx):
         nexp += 1
         judge_pkg(rep, "generated", json.dumps(c["design"])[:4000], im["pkg"], im["accept"], mo["wf_problems"])
     rep.extra["generated_exported"] = nexp
+    export_model_stream(ctx, [dict(c, accept=False) for c in cases[: (120 if ctx.quick else 2000)]])
     # 1b. lists of tops: random sub-lists and orders of the modules of a design, exported in one call
     lcases = [c for c in designs.gen_cases(ctx.rng, n // 2, styles=("proc",)) if len(c["design"]["modules"]) >= 2]
     for c, res in zip(lcases, common.pmap(export_list, [dict(c, order_seed=k) for k, c in enumerate(lcases)], chunk=4)):
